@@ -657,6 +657,32 @@ def run(report, p):
                         r10.check(False, f, e, f"`{norm(e)[:50]}` is tested for truth, and its class {base.split('.')[-1]} defines {special[base]}: the test no longer means 'there is one' but 'it is not empty'", construct=f"truth test of {base.split('.')[-1]} instance: {norm(e)[:40]}")
     r10.check(True, None, None, "")
 
+    # ------------------------------------------------------------------ R3.14
+    r14 = report.rule(
+        "R3.14",
+        "every removed path is named, whatever else is wrong: after the traversal, create / verify / diff reach the missing-file reporter (which prints the list of missing paths) "
+        "on every path to any exit - no raise or return for a more severe condition comes before it",
+        3,
+    )
+    for cf, call in pipes:
+        gq = cfg_of(cf)
+        outer, _inner = traversal_loop(p, cf)
+        if outer is None:
+            raise AnalysisError(f"{cf.qual}: traversal loop not found")
+        ln = gq.by_ast[id(outer)]
+        tf_nodes = {gq.node_for(c).id for c, tg in p.calls[cf.qual] if tfm.qual in tg}
+        r14.instance(cf, call, f"{cf.name}: reporter after the traversal")
+        after = [m for m, l in ln.succ if l != "iter"]
+        path = None
+        for start in after:
+            if start.id in tf_nodes:
+                continue
+            path = gq.find_path(start, {gq.exit.id, gq.raise_exit.id}, avoid=tf_nodes | {ln.id})
+            if path:
+                path = [start] + path if path[0] is not start else path
+                break
+        r14.check(path is None, cf, call, f"`{cf.name}` can leave without having called the missing-file reporter: when that exit is taken (a more severe problem is present) removed files and folders are not named in the output", witness=gq.fmt_path(path) if path else None, construct=f"{cf.name}: exit before the missing-file report")
+
     # ------------------------------------------------------------------ R3.12
     r12 = report.rule(
         "R3.12",
@@ -747,6 +773,7 @@ def run(report, p):
     lazy_reuse_rule(report, p, 'R3.13', [need(cmds, n_).qual for n_ in ('create', 'verify', 'diff')], 'create / verify / diff')
 
     # ---- rules shared with other properties (same mechanism, same rule, reported under every property it can break)
+    include_rules(report, p, 'c06', ['R6.3'], 'the loader recognises every manifest name the tool generates, for every folder name: a generation that is silently passed over makes the history look shorter or empty' + ' - verify reports every recorded file as new')
     include_rules(report, p, 'c05', ['R5.7'], 'what counts as a nested history decides which folders are verified against which history and which tree makes the loader refuse: exactly the directories that contain an ascmhl FOLDER (as listed by the walk)')
     include_rules(report, p, 'c10', ['R10.7'], 'a recorded path that was edited on its way into the manifest no longer matches the file: the unchanged tree is reported as one new and one missing file')
     include_rules(report, p, 'c08', ['R8.1', 'R8.2'], 'verify/diff look recorded entries up through the same routing')
